@@ -39,6 +39,9 @@ pub struct Rec {
 }
 pub type RecRef = Rc<RefCell<Rec>>;
 
+pub const HARD_QUERY_CAP: usize = 1_500_000;
+pub const HARNESS_ABORT: &str = "OXV-HARNESS-ABORT";
+
 pub struct WSpace<K: Kind> {
     pub inner: K::SP,
     pub cfg: SpaceCfg,
@@ -205,6 +208,14 @@ impl<K: Kind> StateValidityChecker<K::S> for WChecker<K> {
         if r.vlog.len() > r.query_cap && !r.cap_hit {
             r.cap_hit = true;
             oxmpl::verif::set_budget(Some(0));
+        }
+        // Hard cap: zeroing the budget only takes effect between iterations, and one iteration
+        // can issue an astronomical number of queries (e.g. a negative step in a tiny space).
+        // The log must not exhaust memory: abort the case (the executor turns this into a
+        // recognisable outcome that every oracle treats as "discarded by the harness").
+        if r.query_cap != usize::MAX && r.vlog.len() > HARD_QUERY_CAP {
+            drop(r);
+            panic!("{HARNESS_ABORT}: more than {HARD_QUERY_CAP} validity queries in one case");
         }
         ans
     }
